@@ -7,6 +7,7 @@ _spec = importlib.util.spec_from_loader("check_main", _loader)
 chk = importlib.util.module_from_spec(_spec)
 _loader.exec_module(chk)
 import replay
+import bounded
 
 TRUSTED_BASE = [
     "go/packages + go/types + go/ssa (x/tools v0.50.0, go1.26.8) build faithful SSA of /repo",
@@ -62,7 +63,7 @@ def run_properties(props, args, seed, scratch, manifest):
             print("VIOLATION property=%s replay=%s no-failing-input-found" % (p, rp))
             write_evidence(p, args.tier, seed, [], {}, [], time.time() - t_start, 1, out, gen_s)
         return 1
-    obls = out["obligations"]
+    obls = out["obligations"] or []
     exceptions0 = load_exceptions()
     def is_slow(o):
         e = exception_for(o["name"], exceptions0)
@@ -215,7 +216,10 @@ def run_properties(props, args, seed, scratch, manifest):
                 k = kf[0]
                 co = carved.get(name)
                 cr = results.get(name + "!carved")
-                if co is None or cr is None or cr["answer"] != "unsat":
+                if k.get("whole_obligation"):
+                    # the obligation is a labelled clause stating exactly the recorded defect: no carve-out twin
+                    pass
+                elif co is None or cr is None or cr["answer"] != "unsat":
                     viol.append((o, cr or r, "obligation fails outside the recorded known finding (carve-out %r does not cover it)" % k.get("carve_out")))
                     continue
                 still, wout = replay.run_witness(k, chk.REPO, chk.GOENV, scratch)
@@ -237,6 +241,19 @@ def run_properties(props, args, seed, scratch, manifest):
         for line in kf_lines:
             print(line)
         nviol = 0
+        bounded_res = []
+        if not args.fn:
+            bounded_res = bounded.run_bounded(p, args.tier, seed, chk.REPO, chk.GOENV, scratch)
+            for b in bounded_res:
+                if b["ok"]:
+                    if args.verbose:
+                        print("bounded stand-in %s: ok (%d cases, %d operations, %.1fs) -- %s" % (b["name"], b["cases_run"], b["operations_run"], b["wall_s"], b["bound"]))
+                    continue
+                nviol += 1
+                rp = write_replay(p, "bounded_" + b["name"], dict(b, obligation="bounded:" + b["name"], reason="bounded stand-in failed on the real code"))
+                print("VIOLATION property=%s replay=%s" % (p, rp))
+                if args.verbose:
+                    print("    bounded:%s -- %s" % (b["name"], b.get("failure")))
         seen_fn = set()
         for o, r, why in viol:
             nviol += 1
@@ -253,7 +270,8 @@ def run_properties(props, args, seed, scratch, manifest):
         fns = [f for f in out["functions"] if p in (f.get("props") or [])]
         write_evidence(p, args.tier, seed, pobls, {"total": total, "discharged": discharged, "by_backend": by_backend,
                        "solver_time": solver_time, "samples": samples, "undecided": undecided, "covers_undecided": covers_undecided, "excepted": excepted, "slow_skipped": [n for n in slow_skipped if any(n == o["name"] for o in out["obligations"] if p in (o.get("props") or []))], "kf": kf_lines,
-                       "violations": [(o["name"], why) for o, r, why in viol]},
+                       "violations": [(o["name"], why) for o, r, why in viol] + [("bounded:" + b["name"], b.get("failure")) for b in bounded_res if not b["ok"]],
+                       "bounded": bounded_res},
                        fns, time.time() - t_start, nviol, out, gen_s)
         print("property %s: %d obligations, %d discharged, %d violations, %d known findings (%.1fs)" % (
             p, total, discharged, nviol, len(kf_lines), time.time() - t_start))
@@ -344,6 +362,7 @@ def write_evidence(prop, tier, seed, pobls, st, fns, wall, nviol, out, gen_s):
         "thorough_tier_only": st.get("slow_skipped", []),
         "known_findings_seen": st.get("kf", []),
         "violations": st.get("violations", []),
+        "bounded_stand_ins": st.get("bounded", []),
         "explanation": "every obligation is an SMT query (path condition and negated goal) generated from go/ssa of /repo's working tree; "
                        "'discharged' counts unsat answers (sat for vacuity covers) plus static frame/binding checks",
     }
